@@ -16,10 +16,10 @@ import (
 // Node is one uniform, JSON-serialisable tree node.
 type Node struct {
 	K      string   `json:"k"`
-	S      string   `json:"s,omitempty"`   // name, string value, operator, variable/builtin name, regex pattern
-	N      float64  `json:"n,omitempty"`   // number literal
-	B      bool     `json:"b,omitempty"`   // boolean literal; Esc for names
-	C      []*Node  `json:"c,omitempty"`   // children
+	S      string   `json:"s,omitempty"`    // name, string value, operator, variable/builtin name, regex pattern
+	N      float64  `json:"n,omitempty"`    // number literal
+	B      bool     `json:"b,omitempty"`    // boolean literal; Esc for names
+	C      []*Node  `json:"c,omitempty"`    // children
 	Keep   int      `json:"keep,omitempty"` // path: 1+index of the step that carries the [] marker (0 = none)
 	Dirs   []string `json:"dirs,omitempty"` // sort: direction per term ("", "<", ">")
 	Params []string `json:"params,omitempty"`
